@@ -11,6 +11,7 @@
 // "linked" (a linked CA: the real linked-CA client over an in-memory Majordomo service keeps provisioners,
 // SSH certificates and SSH revocations; jwk and sshpop provisioners only),
 // "nosshcfg" (both signers through options, no `ssh` section in the configuration), and
+// "userold": the user signer only, plus the CA's former host key under `ssh.keys` (federated=false);
 // "fed": both signers plus `ssh.keys` holding a *federated* host key and a *federated* user key
 // (keys of other SSH CAs) and a non-federated old host key (a former key of this CA).
 // Provisioners on each: jwk (fixture default), x5c, oidc (loopback discovery; admin = adminEmail),
@@ -397,6 +398,17 @@ func newEnv() (*env, error) {
 				panic(err)
 			}
 		}}))
+	// "userold": only the user signer, while the former host key of this CA is still listed under
+	// ssh.keys (federated=false): host certificates signed by it are accepted as proof of
+	// possession, and there is no host signing key to issue their successors with.
+	e.cas["userold"] = must(fixture.New(fixture.Opts{NoDB: true, Provisioners: mkProvs("userold", true), JWKClaims: jc, From: &fixture.CA{MiniCA: both.MiniCA, JWK: both.JWK},
+		Extra: []authority.Option{authority.WithSSHUserSigner(e.userKey)},
+		Config: func(cfg *config.Config) {
+			cfg.SSH = &config.SSHConfig{Keys: []*config.SSHPublicKey{{Type: "host", Federated: false, Key: jwkOf(e.oldHost)}}}
+			if err := cfg.SSH.Validate(); err != nil {
+				panic(err)
+			}
+		}}))
 	// a linked CA: provisioners, SSH certificates and SSH revocations live at the (in-memory) Majordomo service
 	{
 		from := &fixture.CA{MiniCA: both.MiniCA, JWK: both.JWK, SSHUser: e.userKey, SSHHost: e.hostKey}
@@ -466,7 +478,7 @@ func caBits(name string) (string, string) {
 	switch name {
 	case "both", "bothnodb", "fed", "nosshcfg", "linked":
 		return "1", "1"
-	case "user":
+	case "user", "userold":
 		return "1", "0"
 	case "host":
 		return "0", "1"
@@ -990,10 +1002,11 @@ func (e *env) runPop(k *Case) (line, impl string, ok bool) {
 	}
 	cau, cah := caBits(k.CA)
 	// "signed by this CA" = verifies under one of this CA's own SSH root keys: its signer key and,
-	// on "fed", the former host key configured with federated=false. Keys configured with
-	// federated=true belong to other CAs and do not count.
+	// on "fed" and "userold", the former host key configured with federated=false (a root key
+	// whether or not a host signer is configured). Keys configured with federated=true belong to
+	// other CAs and do not count.
 	su := cau == "1" && verifies(e.userKey)
-	sh := cah == "1" && (verifies(e.hostKey) || (k.CA == "fed" && verifies(e.oldHost)))
+	sh := (cah == "1" && verifies(e.hostKey)) || ((k.CA == "fed" || k.CA == "userold") && verifies(e.oldHost))
 	line = fmt.Sprintf("op=%s cau=%s cah=%s dbe=%s epc=1 dren=%s aexp=0 ct=%d kid=%s pr=%s pco=%s pex=%s su=%s sh=%s ny=%s ex=%s hv=%s tsig=%s tcl=%s taud=%s tsub=%s tser=%s rev=%s key=%s case=x%s",
 		k.Op, cau, cah, c.B(ca.DB != nil && k.CA != "linked"), c.B(k.DisRen), ct, c.X(k.Cert.KeyID), xlist(k.Cert.Principals), kvList(old.CriticalOptions), kvList(old.Extensions), c.B(su), c.B(sh),
 		c.B(k.Window == "future"), c.B(k.Window == "expired"), c.B(va != 0 && vb != 0),
